@@ -5,7 +5,7 @@ CONSTANTS a, b, c
 ObjSeqDef == IF c \in Obj THEN <<a, b, c>> ELSE <<a, b>>
 ActsC20 == {"New", "Store", "SetItem", "GetItem", "CtorLike", "Like", "DeepCopy", "Resize", "Reset", "SetCfg", "SetCfgBad", "BinOp", "Neg", "Assign", "RShiftKeep", "Invert"}
 ActsC20Neg == (ActsC20 \ {"Like"}) \cup {"LikeShallow"}
-ActsC04 == {"New1", "Store", "SetItem", "Reset", "BinOp", "Resize", "SetCfg", "Assign"}
+ActsC04 == {"New1", "Store", "SetItem", "Reset", "BinOp", "BinOpOut", "Resize", "SetCfg", "Assign"}
 ActsC02 == {"New1", "Store", "SetItem", "GetItem", "CtorLike", "Like", "DeepCopy", "Resize", "BinOp", "Neg", "Assign", "SetCfg"}
 ActsAll == ActsC02 \cup {"CopyShallow", "Reset", "SetCfgBad", "Drop"}
 =============================================================================
